@@ -56,6 +56,7 @@ func (p *probeApp) UnmarshalJSON(b []byte) error {
 }
 
 func (p *probeApp) Provision(caddy.Context) error {
+	gateWait() // ovl op: hold this load inside changeConfig (no-op unless armed)
 	v, err := decodeJSON(p.raw)
 	if err != nil {
 		return err
@@ -77,7 +78,8 @@ func (p *probeApp) Start() error {
 func (p *probeApp) Stop() error { return nil }
 
 // wrapAdapter is the one config adapter of the harness world ("c12wrap"):
-// X -> {"apps":{"c12":X}}; an empty or undecodable body is an adapter error.
+// X -> {"apps":{"c12":X}}; an empty or undecodable body is an adapter error; an object with a
+// member "warn" is adapted with one warning.
 type wrapAdapter struct{}
 
 func (wrapAdapter) Adapt(body []byte, _ map[string]any) ([]byte, []caddyconfig.Warning, error) {
@@ -85,7 +87,37 @@ func (wrapAdapter) Adapt(body []byte, _ map[string]any) ([]byte, []caddyconfig.W
 	if err != nil {
 		return nil, nil, err
 	}
-	return []byte(jsonText(map[string]any{"apps": map[string]any{"c12": v}})), nil, nil
+	var warnings []caddyconfig.Warning
+	if m, ok := v.(map[string]any); ok {
+		if _, has := m["warn"]; has {
+			warnings = []caddyconfig.Warning{{File: "c12", Line: 1, Directive: "warn", Message: "the body has a member \"warn\""}}
+		}
+	}
+	return []byte(jsonText(map[string]any{"apps": map[string]any{"c12": v}})), warnings, nil
+}
+
+// splitWarnings: handleLoad writes the adapter's warnings (a JSON array) to the response BEFORE it
+// calls caddy.Load - which commits the status line to 200; an error of the load is then appended
+// by handleError as a second JSON value. Returns the response as it would have been without the
+// warnings (status 400 for an appended error) and what was found.
+func splitWarnings(r response) (plain response, warned, errAfter bool) {
+	b := bytes.TrimSpace(r.body)
+	if r.status != 200 || len(b) == 0 || b[0] != '[' {
+		return r, false, false
+	}
+	dec := json.NewDecoder(bytes.NewReader(b))
+	var w []any
+	if dec.Decode(&w) != nil {
+		return r, false, false
+	}
+	rest := bytes.TrimSpace(b[dec.InputOffset():])
+	plain = r
+	plain.body = rest
+	if bytes.HasPrefix(rest, []byte(`{"error"`)) {
+		plain.status = 400
+		return plain, true, true
+	}
+	return plain, true, false
 }
 
 // ---------------------------------------------------------------- process set-up
@@ -517,7 +549,8 @@ func showResp(r response, fails *[]core.Failure, what string) string {
 		return "r"
 	case r.status == 200 && what == "/adapt":
 		var out struct {
-			Result json.RawMessage `json:"result"`
+			Warnings []any           `json:"warnings"`
+			Result   json.RawMessage `json:"result"`
 		}
 		if json.Unmarshal(r.body, &out) != nil {
 			return "d:?"
@@ -525,6 +558,9 @@ func showResp(r response, fails *[]core.Failure, what string) string {
 		v, err := decodeJSON(out.Result)
 		if err != nil {
 			return "d:?"
+		}
+		if len(out.Warnings) > 0 {
+			return "dw:" + encTree(v)
 		}
 		return "d:" + encTree(v)
 	case r.status == 200:
@@ -648,6 +684,12 @@ func (prop) Run(line string) core.Outcome {
 	if len(f) >= 4 && len(f) <= 6 && f[0] == "gg" {
 		return runGG(line, f[1], f[2:])
 	}
+	if len(f) == 5 && f[0] == "ovl" {
+		return runOvl(line, f[1], f[2], f[3], f[4])
+	}
+	if len(f) == 5 && f[0] == "wire" {
+		return runWire(line, f[1], f[2], f[3], f[4])
+	}
 	if len(f) >= 2 {
 		if o, ok := runStrOp(f); ok {
 			return o
@@ -764,6 +806,15 @@ func playHist(steps []step, o *core.Outcome, tags map[string]bool) (outs []strin
 			}
 		}
 		r := do(methodName[st.m], st.path, st.bodyBytes(), st.headers(hdr))
+		warned, errAfter := false, false
+		if st.path == "/load" {
+			if r, warned, errAfter = splitWarnings(r); errAfter {
+				tags["load:warned-then-rejected"] = true
+				o.Failures = append(o.Failures, core.Failure{Class: "rejected-load-with-adapter-warnings-answered-200",
+					What: fmt.Sprintf("step %d: POST /load (Content-Type %s) was rejected (%s) but the client was answered 200: the adapter's warnings had been written to the response before caddy.Load ran",
+						i, contentTypes[st.ct], errClass(r.status, r.body))})
+			}
+		}
 		status = append(status, r.status)
 		if r.hung {
 			o.Failures = append(o.Failures, core.Failure{Class: "request-hung", What: fmt.Sprintf("step %d did not return within 45s", i)})
@@ -777,6 +828,12 @@ func playHist(steps []step, o *core.Outcome, tags map[string]bool) (outs []strin
 			oracleGet(st, r, prev, &o.Failures)
 		} else {
 			s = showResp(r, &o.Failures, st.path)
+			if warned && errAfter {
+				s = "W200:" + strings.TrimPrefix(classOf(s), ":")
+			} else if warned {
+				s = "ww"
+				tags["load:warned"] = true
+			}
 		}
 		etags = append(etags, rec)
 		tags["m:"+st.m] = true
